@@ -290,5 +290,9 @@ func (c *Collector) evictStale() {
 			keys = append(keys, HotKey{Name: key.Name, Counter: counter})
 		}
 	}
+	// only the stale counters are halved, which may break the descending order.
+	sort.SliceStable(keys, func(i, j int) bool {
+		return keys[i].Counter.Value() > keys[j].Counter.Value()
+	})
 	c.keys = keys
 }
